@@ -79,6 +79,13 @@ func (*topologyPlugin) addNodeDataToTopology(topologyTree *Info, topology *kaiv1
 	if len(topology.Spec.Levels) == 0 || !isNodePartOfTopology(nodeInfo, topology.Spec.Levels) {
 		return
 	}
+	// A level keyed like the root of the tree would share the root's domain map: a node labelled root=root
+	// would make the root domain its own child and every walk of the tree endless
+	for _, level := range topology.Spec.Levels {
+		if DomainLevel(level.NodeLabel) == rootLevel {
+			return
+		}
+	}
 
 	var nodeContainingChildDomain *DomainInfo
 	for levelIndex := len(topology.Spec.Levels) - 1; levelIndex >= 0; levelIndex-- {
